@@ -136,6 +136,13 @@ func c13Body(c c13Case, o *c13Obs) {
 			half := rawFrom(peer, self, "0", 9)
 			cn.feed(half[:len(half)/2])
 			cn.readErr = errInjected
+		case "nomsgtype":
+			// a correctly framed message without MsgType: the handler loop ends with an error
+			cn.feed(frameFields([]fld{{"49", peer}, {"56", self}, {"34", "7"}, {"58", "no type"}}))
+			go func() {
+				time.Sleep(2 * time.Second)
+				cn.eof = true // ... and the peer closes a little later
+			}()
 		case "writeerr":
 			cn.blockW = false
 			cn.writeErr = errInjected
@@ -215,6 +222,7 @@ func c13Check(c c13Case, o *c13Obs) (string, string) {
 		return "socket-not-closed" + blk, det
 	}
 	peerCaused := c.Cause == "eof" || c.Cause == "reset" || c.Cause == "readerr" || c.Cause == "writeerr" || c.Cause == "writeblock"
+	// (a message without MsgType ends the handler loop with an error: the statement promises no notification for that)
 	if peerCaused && o.hdisc+o.stopped+o.sdisc == 0 {
 		return "no-disconnect-notification" + blk, det
 	}
@@ -265,7 +273,7 @@ func runC13(R *vlib.Out) {
 	thorough := *vlib.Tier == "thorough"
 	points := []string{"nologon", "logged", "inbound2", "sends2", "logout"}
 	// Session.Stop is not among the endings the statement lists (it only cancels the session context) and is not judged here
-	causes := []string{"eof", "reset", "readerr", "writeerr", "writeblock", "close", "hstop"}
+	causes := []string{"eof", "reset", "readerr", "writeerr", "writeblock", "close", "hstop", "nomsgtype"}
 	bufs := []int{0, 1, 10}
 	unit := 0
 	for _, role := range []string{"ini", "acc"} {
